@@ -7,7 +7,7 @@ for patch in mutants/$pat.patch; do
   pid=$(echo "$name" | cut -d- -f1 | tr a-z A-Z)
   wt=$(mktemp -d /tmp/seedwt-XXXXXX); rmdir "$wt"
   git -C /repo worktree add -q --detach "$wt" HEAD || continue
-  if ! git -C "$wt" apply "$(readlink -f "$patch")" 2>/dev/null; then echo -e "$name\t$pid\tPATCH-FAILS\t-\t-" >> mutants/RESULTS.tsv; git -C /repo worktree remove --force "$wt"; continue; fi
+  if ! git -C "$wt" apply "$(readlink -f "$patch")" 2>/dev/null && ! (cd "$wt" && patch -s -p1 -F3 < "/verif/$patch" >/dev/null 2>&1); then echo -e "$name\t$pid\tPATCH-FAILS\t-\t-" >> mutants/RESULTS.tsv; git -C /repo worktree remove --force "$wt"; continue; fi
   if [ "${SKIP_PINNED:-0}" = "1" ]; then pinned="skipped"; else
     pinned=$(cd "$wt" && PYTHONPATH="$wt/src" /venv/bin/python -m pytest -q -p no:cacheprovider --timeout=900 --continue-on-collection-errors 2>&1 | tail -1 | grep -o '[0-9]* passed' )
   fi
